@@ -45,11 +45,11 @@ def dispatchC03 : List Str → Option (List Str)
       | .error e => some (aerrOut e)
     else if cmd == "c03.attach".toList then
       match args with
-      | d :: p :: a :: pa :: lines =>
+      | v :: d :: p :: a :: pa :: lines =>
         match readAll { doc := d, pre := p, alt := a, preAlt := pa } lines with
         | .ok items =>
           some ("ok".toList ::
-            (entDocs Gen.entityFields (attach d items)).flatMap
+            (entDocs Gen.entityFields (v == "repaired".toList) (attach d items)).flatMap
               (fun e => ("E:".toList ++ e.1) :: (metaOut e.2.1 ++ linesOut e.2.2)))
         | .error e => some ["err".toList, rerrName e]
       | _ => some ["bad-request".toList]
